@@ -38,11 +38,19 @@ def effective_k(case):
     return max(ks) if ks else alg.get("k", 1)
 
 
+# classes reported to the coordinator whose families live in the harness stream `pending`; the stream is run for
+# an id only once known_findings.json lists it for C12 (a fixed defect moves into the main stream instead)
+PENDING = {}
+
+
 def classify(case, i, m, s):
     # class of the listed known finding: algorithm = yens and effective k (query field k, else configured k) >= 2
     k = effective_k(case)
     if k is not None and k >= 2:
         return "K_yens_k_ge_2"
+    for fid, family in PENDING.items():
+        if case.get("family") == family:
+            return fid
     return None
 
 
@@ -71,6 +79,12 @@ def run(chk):
     r = vf.run_stream(binp, "batch", n, chk.seed, os.path.join(chk.outdir, "batch"), extra=extra, replay=chk.replay)
     chk.add_stream(r, RULE)
     vf.compare(chk, r, classify=classify, binpath=binp, extra=extra)
+    for fid in sorted(PENDING):
+        if fid in chk.finding_ids() and not chk.replay:
+            ex = ["--only", fid]
+            rp = vf.run_stream(binp, "pending", 0, chk.seed, os.path.join(chk.outdir, "pending"), extra=ex)
+            chk.add_stream(rp, "witness families of known-finding class " + fid)
+            vf.compare(chk, rp, classify=classify, binpath=binp, extra=ex)
     if thorough and not chk.replay:
         # plain release arithmetic (no overflow checks): corpus + deterministic families again
         binw = vf.build_harness("c12", profile="wrap")
